@@ -94,7 +94,8 @@ def gen_fn(src, shape):
         opaque = opaque or bool(opq)
         L.append(f"    let p = apply_setters(p, ctx, {i + 1});")
         L.append(f"    ctx.record_step({i + 2}, \"{label}\", p.params());")
-    has_index = (state in HAS_INDEX) and not opaque
+    # an index is checked only where an output corresponds to one source position: no upstream materialisation
+    has_index = (state in HAS_INDEX) and not opaque and not cuts
     L.append("    ctx.begin_terminal();")
     if has_index:
         L.append("    match term {")
